@@ -73,6 +73,10 @@ type VerifFleet struct {
 	FaultsUsed  []string
 	// FaultMutatingOnly: inject faults only into mutating statements (bound for quick tiers)
 	FaultMutatingOnly bool
+	// FaultOnly: when set, inject faults only into this statement (e.g. "ping")
+	FaultOnly string
+	// PingFailed: the latest ping of the host failed (the caller cannot reach it)
+	PingFailed map[string]bool
 	// environment steps between calls
 	Havoc bool
 	// Eager: fair deterministic environment — before every GTID read every running IO thread has
@@ -82,6 +86,8 @@ type VerifFleet struct {
 	Checkpoint func(host, stmt string)
 	// Before is called when a mutating statement arrives, before it takes effect.
 	Before func(host, stmt string)
+	// OnCall is called when any statement (read or write) arrives, before faults and effects.
+	OnCall func(host, stmt string)
 	Log    []string
 	// LogReads: also record read statements in the event log
 	LogReads bool
@@ -127,7 +133,7 @@ func (f *VerifFleet) fault(host, stmt string, mutating bool) (error, bool) {
 	if !s.Alive {
 		return ErrVerifRefused, false
 	}
-	if f.FaultBudget <= 0 || f.FaultKinds == 0 || (f.FaultMutatingOnly && !mutating) {
+	if f.FaultBudget <= 0 || f.FaultKinds == 0 || (f.FaultMutatingOnly && !mutating) || (f.FaultOnly != "" && f.FaultOnly != stmt) {
 		return nil, true
 	}
 	n := 1
@@ -253,10 +259,22 @@ func yesno(b bool) string {
 
 func (f *VerifFleet) queryRow(n *Node, q string, arg any, result any) error {
 	host := n.host
+	if f.OnCall != nil {
+		f.OnCall(host, q)
+	}
 	if err, _ := f.fault(host, q, false); err != nil {
+		if q == queryPing {
+			if f.PingFailed == nil {
+				f.PingFailed = map[string]bool{}
+			}
+			f.PingFailed[host] = true
+		}
 		return err
 	}
 	s := f.Servers[host]
+	if q == queryPing && f.PingFailed != nil {
+		f.PingFailed[host] = false
+	}
 	s.Reads++
 	if f.LogReads {
 		verifnd.Event("read " + host + " " + q)
@@ -323,6 +341,9 @@ func (f *VerifFleet) queryRow(n *Node, q string, arg any, result any) error {
 
 func (f *VerifFleet) exec(n *Node, q string, arg map[string]any) error {
 	host := n.host
+	if f.OnCall != nil {
+		f.OnCall(host, q)
+	}
 	if f.Before != nil && f.Servers[host] != nil {
 		f.Before(host, q)
 	}
